@@ -23,6 +23,7 @@ def _keyset(res):
 
 def _one(args):
     modname, sources, root, mut, base_failed = args
+    os.environ["VERIF_TIER_EFFECTIVE"] = "quick"  # mutants are judged on the quick domains
     chk = importlib.import_module(modname)
     src = sources[mut["module"]]
     want = mut.get("count", 1)
